@@ -75,3 +75,11 @@ Theorem C14_element_encoding_column : forall k, 0 <= k <= 2147483646 ->
     LeafGen.c_CMRelementIsColumn e = Some 1 /\ LeafGen.c_CMRelementIsValid e = Some 1 /\ LeafGen.c_CMRelementToColumnIndex e = Some k.
 Proof. exact LeafProofs.elements_roundtrip_column. Qed.
 Print Assumptions C14_element_encoding_column.
+
+(* ---------- round trip through recognition ---------- *)
+From Cmr Require RtModel RtProofs.
+Theorem C14_recognition_roundtrip_judge_sound : forall rec signed rc cf Mo rc2 v rc3 M2o rest,
+  RtModel.reprt_input rec = Some ((signed, rc, cf, Mo, rc2, v, rc3, M2o), rest) -> cf = 1 -> RtModel.judge_reprt rec = 0 ->
+  rc = 0 /\ rc2 = 0 /\ v = 1 /\ rc3 = 0 /\ exists m n M, Mo = Some (m, n, M) /\ M2o = Some (m, n, M).
+Proof. exact RtProofs.judge_reprt_sound. Qed.
+Print Assumptions C14_recognition_roundtrip_judge_sound.
